@@ -184,3 +184,18 @@ Proof.
       destruct (IHj _ Hok2 ltac:(lia)) as [E1 E2]. split; [exact E1|]. rewrite E2, Hr'. reflexivity. }
     destruct (Hid n _ Hok1 Hfull) as [E1 E2]. split; [exact E1|]. rewrite E2, Hlen1. unfold k. lia.
 Qed.
+
+(* ------------------------------------------------------------------ the start of the program *)
+(* the zero-initialised statics plus one block for the terminal's pending bytes: an empty stack, an empty queue, an empty record *)
+Lemma src_at_start tin : Forall (fun c => 0 <= c < 256) tin ->
+  src_at (length cglobals) (cglobals ++ [map VInt tin]) (mkSrc [] 0 0 gb_ibuf 0 gb_icmd tin).
+Proof.
+  intro H. unfold src_at. cbn [s_stk s_pos s_cnt s_ib s_ip s_ic s_tin].
+  split.
+  { exists gb_vi_buf. unfold vibuf_at, cell_at, VIBUF. cbn [length rev map firstn].
+    split; [reflexivity|]. split; [reflexivity|]. split; [reflexivity|]. split; [reflexivity|]. split; [apply Nat.le_0_l|constructor]. }
+  split; [apply term_at_start|].
+  split; [split; [apply nth_error_app_new|exact H]|]. split; constructor.
+Qed.
+Lemma kt_fresh_start : kt_fresh (length cglobals).
+Proof. vm_compute; repeat split; discriminate. Qed.
